@@ -2,8 +2,8 @@
  * NanoVM Heap - GC-managed heap objects
  *
  * Reference counting GC. Every heap object has a VmHeapHeader prepended.
- * When ref_count reaches 0, the object is freed (with recursive release
- * of any contained references).
+ * When ref_count reaches 0, the object is freed (with release of any
+ * contained references: recursive up to a fixed depth, then queued).
  */
 
 #ifndef NANOVM_HEAP_H
@@ -110,6 +110,11 @@ typedef struct {
     VmString **intern_table;
     uint32_t intern_count;
     uint32_t intern_capacity;
+    /* Dead objects nested too deeply to free recursively (see vm_release) */
+    NanoValue *deferred;
+    uint32_t deferred_count;
+    uint32_t deferred_capacity;
+    uint32_t release_depth;
 } VmHeap;
 
 /* ========================================================================
